@@ -20,7 +20,7 @@ GO_PKG = "./api/handler"
 PKGS = {"parser": ("./api/token", "^TestVerifDriver$"), "jwt": ("./api/handler", "^TestVerifDriver$"),
         "sig": ("./api/handler", "^TestVerifDriver$"), "rpc": ("./rpc/internal/auth", "^TestVerifDriver$"),
         "grp": ("./api", "^TestVerifDriverC04$"), "ejwt": ("./api", "^TestVerifDriverC04$"),
-        "rpcs": ("./rpc/internal", "^TestVerifDriverC04$"), "rpci": ("./rpc/internal/serverinterceptors", "^TestVerifDriverC04$")}
+        "rpcs": ("./rpc/internal", "^TestVerifDriverC04$"), "rpcn": ("./rpc", "^TestVerifDriverC04$"), "rpci": ("./rpc/internal/serverinterceptors", "^TestVerifDriverC04$")}
 
 _A = "api/handler/authhandler.go"
 _T = "api/token/tokenparser.go"
@@ -72,7 +72,7 @@ def _gen_spec():
 
 
 GEN_SPEC = _gen_spec()
-QUICK_N = 560
+QUICK_N = 480
 THOROUGH_N = 6000
 SHARD = 70
 DRIVER_TIMEOUT = 1200
@@ -82,7 +82,7 @@ RULE = ("mix of 4 case kinds: parser histories (22%: 1-60 requests through one t
         "{s1,s2,s3}, algs HS256/384/512/none/RS256-junk, exp/nbf/iat at +-1h and at +40..250 s with the jwt clock (jwt.TimeFunc) moving 20..3000 s between requests, truncated/flipped/garbage tokens, "
         "Bearer/bearer/absent schemes), signed requests (43%: correctly signed + every single-field tampering + key/secret/"
         "fingerprint/header defects + timestamps at tol-1,tol,tol+1,+-5 and extreme/non-numeric values, strict and non-strict, "
-        "all methods, X-Request-Uri, encrypted bodies; body framing in {declared Content-Length, unknown length -1 via an opaque reader, chunked through a real httptest.Server, declared length through a real server, empty body} x {correct, body tampered, signed-for-empty-body with a body sent}), route groups on one engine (8%: 2-3 WithSignature groups with their own fingerprint->key tables over 3 RSA keys generated at run time, every (fp,key) pair in use sent to every group), JWT route groups built by the engine from api.WithJwt/WithJwtTransition with previous secrets of every length 0..33 and current secrets around the 8-byte limit (5.5%), real rpc server bursts (1%: 300-800 wrong/missing-token calls on one method then correct pairs), long client keys (35% of signed requests: secret plaintext of 113..349 bytes = 1, exactly 117, 2 and 3 RSA blocks), 3 fixed encrypted-body size cases in the corpus (wire body 1048575 / 1048576 / 1048577 bytes), RPC floods (1%: 1500-4000 calls for apps without stored token, then right/forged tokens on 5-9 fresh known apps), RPC interceptor histories (7%: Unary/Stream interceptors with FullMethod names incl. health/reflection/empty), RPC authenticator histories (7%: miniredis hash contents x metadata "
+        "all methods, X-Request-Uri, encrypted bodies; body framing in {declared Content-Length, unknown length -1 via an opaque reader, chunked through a real httptest.Server, declared length through a real server, empty body} x {correct, body tampered, signed-for-empty-body with a body sent}), route groups on one engine (8%: 2-3 WithSignature groups with their own fingerprint->key tables over 3 RSA keys generated at run time, every (fp,key) pair in use sent to every group), JWT route groups built by the engine from api.WithJwt/WithJwtTransition with previous secrets of every length 0..33 and current secrets around the 8-byte limit (5.5%), rpc.NewServer config matrix (1.5%: Auth x StrictControl x stored/not stored/outage x right/wrong/missing token, unary and stream), percent-escapes in the signed path/query incl. %d %! with a digit of an escape altered after signing, unsigned HEAD/OPTIONS/PATCH/TRACE/... requests on every group route registered with GET / POST / both / all four, real rpc server bursts (1%: 300-800 wrong/missing-token calls on one method then correct pairs), long client keys (35% of signed requests: secret plaintext of 113..349 bytes = 1, exactly 117, 2 and 3 RSA blocks), 3 fixed encrypted-body size cases in the corpus (wire body 1048575 / 1048576 / 1048577 bytes), RPC floods (1%: 1500-4000 calls for apps without stored token, then right/forged tokens on 5-9 fresh known apps), RPC interceptor histories (7%: Unary/Stream interceptors with FullMethod names incl. health/reflection/empty), RPC authenticator histories (7%: miniredis hash contents x metadata "
         "shapes x strict x outages); the thorough tier adds the original and all 6 single-field/key tamperings of 200 base requests. non-trivial = a history with both an accepted and a refused request / a signed request "
         "on a guarded method with a parsable header / an RPC history with both outcomes; distinct = distinct canonical case JSON")
 TRUSTED = ["golang-jwt/jwt v4 (signature + time-claim verdict per (Authorization header, secret) tabulated by the driver by "
@@ -204,8 +204,9 @@ KEYS = [base64.b64encode(b"q4t7w!z%C*F-JaNdRgUjXn2r5u8x/A?D").decode(),
 # 96 -> 157 (2 blocks), 160 -> 245 (3 blocks), 240 -> 349 (3 blocks)
 LONG_KEYS = [base64.b64encode(bytes((7 * i + n) % 251 for i in range(n))).decode() for n in (66, 69, 96, 160, 240, 63)]
 H_OK = "fingerprint={FP}; secret={SECRET}; signature={SIG}"
-PATHS = ["/", "/a", "/a/b", "/users/42/items", "/a%0Ab", "/sp%20ace", "/a/b/"]
-QUERIES = ["", "x=1", "a=1&b=2", "q=%0A", "k=v&k=w", "z"]
+PATHS = ["/", "/a", "/a/b", "/users/42/items", "/a%0Ab", "/sp%20ace", "/a/b/", "/p%2Fq", "/lit%25d", "/x%25%21s", "/u%41"]
+QUERIES = ["", "x=1", "a=1&b=2", "q=%0A", "k=v&k=w", "z", "name=%41&page=1", "f=%25d", "p=%2F&q=%7e", "fmt=%25%21d%25s"]
+PCT_QUERIES = ["name=%41&page=1", "f=%25d&g=%30", "p=%2F&q=%7e", "fmt=%25%21d%25s&n=%31"]
 BODIES = ["", "hello", '{"a":1}', "line1\nline2", "x" * 64]
 
 
@@ -250,7 +251,7 @@ def _unescape(p):
     return re.sub(r"%([0-9A-Fa-f]{2})", lambda m: chr(int(m.group(1), 16)), p)
 
 
-SIG_VARIANTS = ["valid", "valid", "valid", "t-ts", "t-method", "t-path", "t-query", "t-body", "t-body", "t-body-empty", "t-body-empty",
+SIG_VARIANTS = ["valid", "valid", "valid", "pct-valid", "pct-valid", "t-escape", "t-escape", "t-ts", "t-method", "t-path", "t-query", "t-body", "t-body", "t-body-empty", "t-body-empty",
                 "empty-body", "t-key", "routed-path",
                 "off-in", "off-edge", "off-out-past", "off-out-future", "off-out-future", "ts-extreme", "ts-junk", "corrupt", "unknown-fp", "hdr-missing",
                 "hdr-shape", "hdr-dup", "plain-defect", "sig-junk", "other-method", "enc-ok", "enc-bad", "junk-secret"]
@@ -274,6 +275,20 @@ def gen_sig(rng, variant=None):
         c["signpath"] = c["signpath"] + rng.choice(["x", "/", "\n"])
     elif v == "t-query":
         c["signquery"] = rng.choice([c["signquery"] + "&t=1", "", "x=2"]) if c["signquery"] not in ("", "x=2") else c["signquery"] + "&t=1"
+    elif v in ("pct-valid", "t-escape"):
+        # percent-escapes in the signed content (raw query and, decoded, the path); t-escape: a digit inside one escape of the
+        # query is altered after signing
+        q = rng.choice(PCT_QUERIES)
+        path = rng.choice(["/lit%25d", "/p%2Fq", "/x%25%21s", "/plain"])
+        c["xuri"] = ""
+        c["target"] = "http://localhost" + path + "?" + q
+        c["signpath"], c["signquery"] = _unescape(path), q
+        if v == "t-escape":
+            i = [m.start() for m in re.finditer(r"%[0-9A-Fa-f]{2}", q)]
+            k = rng.choice(i)
+            d = q[k + 2]
+            sent = q[:k + 2] + ("1" if d != "1" else "2") + q[k + 3:]
+            c["target"] = "http://localhost" + path + "?" + sent
     elif v == "t-body":
         if c["body"] == "" and rng.random() < 0.7:
             c["body"] = rng.choice(BODIES[1:])
@@ -433,7 +448,8 @@ def gen_grp(rng):
         nk = rng.choice([1, 1, 2])
         gfps = rng.sample(fps, nk)
         groups.append({"strict": rng.random() < 0.8, "tol": rng.choice([10, 100, 600]),
-                       "keys": [{"fp": f, "key": rng.randrange(3)} for f in gfps]})
+                       "keys": [{"fp": f, "key": rng.randrange(3)} for f in gfps],
+                       "methods": rng.choice([["GET"], ["GET"], ["POST"], ["GET", "POST"], ["POST", "GET", "PUT", "DELETE"]])})
     pairs = sorted({(k["fp"], k["key"]) for g in groups for k in g["keys"]})
     pairs += [(rng.choice(fps), rng.randrange(3))]
     reqs = []
@@ -445,6 +461,14 @@ def gen_grp(rng):
                          "method": rng.choice(["POST", "POST", "GET", "PUT", "DELETE"]),
                          "query": rng.choice(["", "x=1", "a=1&b=2"]), "body": rng.choice(["", "hi", "payload-1"]),
                          "tamper": "" if t < 0.85 else rng.choice(["body", "query"])})
+    for r_ in reqs:
+        r_["method"] = rng.choice(groups[r_["group"]]["methods"]) if rng.random() < 0.85 else r_["method"]
+    # the method dimension: UNSIGNED requests with every method on every group's route
+    fp0, key0 = pairs[0]
+    for gi in range(ng):
+        for m in ["HEAD", "OPTIONS", "PATCH", "TRACE", "GET", "POST", "PUT", "DELETE"]:
+            reqs.append({"group": gi, "fp": fp0, "enckey": key0, "hmackey": KEYS[0], "tsoff": 0, "method": m, "query": "",
+                         "body": "", "tamper": "", "nosig": True})
     rng.shuffle(reqs)
     return {"kind": "grp", "groups": groups, "reqs": reqs}
 
@@ -544,8 +568,42 @@ def gen_rpcs(rng):
     return {"kind": "rpcs", "strict": rng.random() < 0.5, "ops": ops}
 
 
+def gen_rpcn(rng):
+    """rpc.NewServer(ServerConfig{Auth, StrictControl, Redis}): the whole matrix {stored / not stored / outage} x {right / wrong /
+    missing token} on fresh apps, unary and stream"""
+    apps = ["cfg-%d" % i for i in range(12)]
+    it = iter(apps)
+    ops = []
+    stored = [next(it) for _ in range(4)]
+    for a in stored:
+        ops.append({"op": "set", "app": a, "token": "tok-" + a})
+    mode = lambda: rng.choice(["unary", "stream"])
+    calls = [{"op": "call", "mode": mode(), "nomd": False, "apps": [stored[0]], "tokens": ["tok-" + stored[0]]},
+             {"op": "call", "mode": mode(), "nomd": False, "apps": [stored[1]], "tokens": ["forged"]},
+             {"op": "call", "mode": mode(), "nomd": False, "apps": [stored[2]], "tokens": None},
+             {"op": "call", "mode": mode(), "nomd": False, "apps": [next(it)], "tokens": ["tok-x"]},       # no stored token
+             {"op": "call", "mode": mode(), "nomd": False, "apps": [next(it)], "tokens": [""]},
+             {"op": "call", "mode": mode(), "nomd": True}]
+    rng.shuffle(calls)
+    ops += calls
+    ops.append({"op": "down"})
+    ops += [{"op": "call", "mode": mode(), "nomd": False, "apps": [stored[3]], "tokens": ["tok-" + stored[3]]},   # outage, not cached
+            {"op": "call", "mode": mode(), "nomd": False, "apps": [next(it)], "tokens": ["forged"]},
+            {"op": "call", "mode": mode(), "nomd": False, "apps": [stored[0]], "tokens": ["tok-" + stored[0]]}]   # cached before
+    ops.append({"op": "up"})
+    ops.append({"op": "call", "mode": mode(), "nomd": False, "apps": [stored[3]], "tokens": ["tok-" + stored[3]]})
+    return {"kind": "rpcn", "auth": rng.random() < 0.75, "strict": rng.random() < 0.5, "ops": ops}
+
+
 def generate(rng, tier, n):
     cases = []
+    if tier != "search":
+        # the four (Auth, StrictControl) configurations through rpc.NewServer, every run
+        for auth in (True, False):
+            for strict in (True, False):
+                c = gen_rpcn(rng)
+                c["auth"], c["strict"] = auth, strict
+                cases.append(c)
     if tier == "thorough":
         # every single-field tampering (and the untouched original) of 200 base requests, strict mode
         import random
@@ -576,6 +634,8 @@ def generate(rng, tier, n):
             cases.append(gen_ejwt(rng))
         elif r < 0.895:
             cases.append(gen_rpc_flood(rng) if rng.random() < 0.5 else gen_rpcs(rng))
+        elif r < 0.91:
+            cases.append(gen_rpcn(rng))
         elif r < 0.93:
             cases.append(gen_rpc(rng))
         else:
@@ -604,6 +664,17 @@ def search(rng, problems):
         p = gen_parser(rng)
         p["secret"], p["prev"] = SECRETS[0], SECRETS[1]
         out.append(p)
+    for auth in (True, False):
+        for strict in (True, False):
+            for _ in range(2):
+                c = gen_rpcn(rng)
+                c["auth"], c["strict"] = auth, strict
+                out.append(c)
+    for v in ("pct-valid", "t-escape"):
+        for _ in range(8):
+            c = gen_sig(rng, v)
+            c["strict"] = True
+            out.append(c)
     for _ in range(6):
         out.append(gen_rpcs(rng))
     for k in LONG_KEYS:
@@ -887,13 +958,32 @@ def enc_grp(case, obs):
         mac = clist([cpair(cpair(cbytes(key), B(o["sentcontent"])), B(o["sentmac"])), cpair(cpair(cbytes(key), B(o["signcontent"])), B(o["signmac"]))])
         sha = clist([cpair(B(rq["body"]), B(o["sha"]))])
         ts = go_parse_int(o["ts"])
-        q = "(mkq true %s %s %s %s %s %s %s %s)" % (cbytes(key), B(o["ts"]), copt(None if ts is None else cZ(ts)), B(o["sig"]),
-                                                   B(o["method"]), B(o["path"]), B(o["query"]), B(rq["body"]))
+        q = "(mkq %s %s %s %s %s %s %s %s %s)" % (cbool(not rq.get("nosig")), cbytes(key), B(o["ts"]), copt(None if ts is None else cZ(ts)), B(o["sig"]),
+                                                 B(o["method"]), B(o["path"]), B(o["query"]), B(rq["body"]))
         hdr = {"": 0, "wrong-time": 1, "invalid": 2}.get(o["sighdr"], 9)
         sig = "(mksc false 0%%Z %s %s [] %s [] 0%%nat %s %s %s None DecErr %s false false %s %s %s %s 0%%N)" % (
             cZ(o["now0"]), cZ(o["now1"]), req, b64, mac, sha, q, cZ(o["status"]), cbool(o["ran"]), cN(hdr), cbool(o["panic"]))
-        reqs.append("(mkgr %s %s %s %s %s)" % ("%d%%nat" % rq["group"], rsa, B(rq["fp"]), cN(rq["enckey"]), sig))
+        meths = case["groups"][rq["group"]].get("methods") or ["POST", "GET", "PUT", "DELETE"]
+        reqs.append("(mkgr %s %s %s %s %s %s)" % ("%d%%nat" % rq["group"], rsa, B(rq["fp"]), cN(rq["enckey"]), sig, clist([B(m) for m in meths])))
     return "CGrp (mkgc %s %s)" % (groups, clist(reqs))
+
+
+def enc_rpcn(case, obs):
+    ids = {"": 0}
+
+    def sid(s):
+        if s not in ids:
+            ids[s] = len(ids)
+        return ids[s]
+    steps = []
+    for (down, store, op), row in zip(rpc_steps(case), obs["rows"]):
+        st = clist([cpair(cN(sid(a)), cN(sid(t))) for a, t in sorted(store.items())])
+        if op.get("nomd"):
+            md = "None"
+        else:
+            md = "(Some %s)" % cpair(clist([cN(sid(a)) for a in (op.get("apps") or [])]), clist([cN(sid(t)) for t in (op.get("tokens") or [])]))
+        steps.append("(mkrs %s %s %s %s)" % (cbool(down), st, md, cZ(row["code"])))
+    return "CRpcN (mkrn %s %s %s)" % (cbool(case["auth"]), cbool(case["strict"]), clist(steps))
 
 
 def enc_rpci(case, obs):
@@ -924,7 +1014,7 @@ PANIC_TERM = "CRpc (mkrc true [mkrs false [] None (0)%Z])"
 def encode(case, obs):
     if "driver_panic" in obs:
         return PANIC_TERM
-    return {"parser": enc_parser, "jwt": enc_jwt, "sig": enc_sig, "rpc": enc_rpc, "grp": enc_grp, "rpci": enc_rpci, "ejwt": enc_ejwt, "rpcs": enc_rpcf}[case["kind"]](case, obs)
+    return {"parser": enc_parser, "jwt": enc_jwt, "sig": enc_sig, "rpc": enc_rpc, "grp": enc_grp, "rpci": enc_rpci, "ejwt": enc_ejwt, "rpcs": enc_rpcf, "rpcn": enc_rpcn}[case["kind"]](case, obs)
 
 
 # ------------------------------------------------------------------------------------------- evidence
@@ -942,7 +1032,7 @@ def nontrivial(case, obs):
         return case["method"] in ("GET", "POST", "PUT", "DELETE") and not case["noheader"] and case["intent"]["wellformed"]
     if k in ("grp", "ejwt"):
         return len({r["ran"] for r in obs["rows"]}) == 2
-    if k == "rpcs":
+    if k in ("rpcs", "rpcn"):
         return True
     codes = {r["code"] == 0 for r in obs["rows"]}
     return len(codes) == 2
@@ -987,6 +1077,8 @@ def bucket(case, obs):
                     out.append("note:accepted-without-Bearer-prefix")
     elif k == "sig":
         out.append("sig:" + case["intent"]["variant"])
+        if "%" in obs["sentcontent"].replace("%0A", ""):
+            out.append("sig:percent-in-content:%s:%d" % ("strict" if case["strict"] else "lax", obs["status"]))
         out.append("sig:%s:%d%s" % ("strict" if case["strict"] else "lax", obs["status"], "" if obs["ran"] else ":blocked"))
         out.append("sig:framing=%s:clen=%s%s" % (case.get("framing", "declared"), "-1" if obs["clen"] < 0 else ("0" if obs["clen"] == 0 else ">0"),
                                                ":chunked" if obs.get("chunked") else ""))
@@ -1032,6 +1124,18 @@ def bucket(case, obs):
                                          "strict" if g["strict"] else "lax", r["status"]))
             if same_fp_other_key and not conf:
                 out.append("grp:fingerprint-configured-here-with-another-key")
+            if rq.get("nosig"):
+                reg = rq["method"] in (g.get("methods") or ["POST", "GET", "PUT", "DELETE"])
+                out.append("grp:unsigned:%s:%s:%s:%d%s" % (rq["method"], "registered" if reg else "other-method", "strict" if g["strict"] else "lax",
+                                                          r["status"], ":RAN" if r["ran"] else ""))
+    elif k == "rpcn":
+        out.append("rpcn:auth=%s:strict=%s" % (case["auth"], case["strict"]))
+        for (down, store, op), r in zip(rpc_steps(case), obs["rows"]):
+            app = (op.get("apps") or [""])[0]
+            tok = (op.get("tokens") or [""])[0]
+            st = "outage" if down else ("stored" if app in store else "not-stored")
+            tk = "no-md" if op.get("nomd") else ("missing" if not tok else ("right" if store.get(app) == tok else "wrong"))
+            out.append("rpcn:auth=%s:strict=%s:%s:%s:code=%d" % (case["auth"], case["strict"], st, tk, r["code"]))
     elif k == "rpcs":
         out.append("rpcs:" + ("strict" if case["strict"] else "lax"))
         after = False
@@ -1075,6 +1179,10 @@ def explain(case, obs):
         return ("the signature gate PANICKED instead of answering (%s): a correctly signed request announcing type=1 whose body "
                 "base64-decodes to the empty string reaches codec.EcbDecrypt -> pkcs5UnPadding, which indexes src[len(src)-1]; "
                 "expected 400 from cryptohandler (c04_gate_panic_iff: the gate panics only if decryptBody does)" % obs.get("panicval"))
+    if k == "rpcn":
+        return ("a server built with rpc.NewServer(ServerConfig{Auth:%s, StrictControl:%s, Redis}) answered a call against the RPC decision table: without "
+                "Auth every call is served; with Auth missing metadata / wrong token -> Unauthenticated, right token -> OK, no stored token or store outage "
+                "rejected (Internal) only when StrictControl (c04_rpc_config_matrix)" % (case["auth"], case["strict"]))
     if k == "rpcs":
         return ("through a real rpc server (breaker interceptor in front of the authorize interceptors) a verdict contradicts the RPC decision table: "
                 "after a burst of Unauthenticated answers on a method, calls with a correct app/token on that method must still be accepted "
